@@ -6,6 +6,15 @@ where
     Companion: BasicDataCompanion<T>,
 {   
     pub(crate) fn optimize_data_block_and_retain(&mut self, additional_data_retentions: &[usize]) -> Result<Vec<usize>, DataError> {
+        if self.data_retention_count() > self.data_block().cursor {
+            // nothing beyond the data that exists can be retained, the arithmetic below would underflow
+            return Err(DataError::from(format!(
+                "Data retention count {} is greater than the amount of data {}.",
+                self.data_retention_count(),
+                self.data_block().cursor
+            )));
+        }
+
         let current_data_end = self.data_block().start + self.data_block().cursor;
         let retained_data_end = self.data_block().start + self.data_retention_count();
         
